@@ -842,11 +842,13 @@ def run_c11(ctx) -> Corr:
             case = {"history": Hist(h.version, h.metric, h.preload, h.ops[: i + 1]).to_json(), "outcome": o["out"],
                     "writes": [list(w) for w in o["writes"]], "registry_keys": sorted(before["nodes"])}
             resp = [w for w in o["writes"] if w[0].split(";")[2:5] == ["3", "0", "4"]]
-            if o["out"] == "err tooManyNodes":
-                if o["writes"] and any(w[0].split(";")[4] == "4" for w in o["writes"]) or set(o["nodes"]) != set(before["nodes"]):
+            full = bool(before["nodes"]) and max(before["nodes"]) >= 254
+            failed_query = any(not w[1] for w in o["writes"])   # the version query after the error may itself fail
+            if o["out"] == "err tooManyNodes" or (full and o["out"] == "err transportFailed" and failed_query):
+                if resp or set(o["nodes"]) != set(before["nodes"]):
                     corr.violate("too-many-nodes error but something was written or registered", case)
                     break
-                if not before["nodes"] or max(before["nodes"]) < 254:
+                if not full:
                     corr.violate("too-many-nodes error while an id above the highest registered id was still free", case)
                     break
                 continue
